@@ -113,6 +113,26 @@ def update_guard(ctx, prop_prefix):
         else:
             ctx.violation("%s|update-guard|state" % fn.path, site(fn, bi),
                           "Snapshot::update is not guarded by !self.state.canceled(): after restart() a run over the OLD stream that completes before the next tick is installed into the snapshot (old items shown; the 0.4.1 crash)")
+    # the finished run's state is copied into the snapshot BEFORE the tick modifies it: no write to the worker's
+    # pattern (clone_from / clone / assignment through the guard) may reach Snapshot::update — otherwise the snapshot
+    # pairs the NEW pattern with matches and scores computed for the OLD one
+    for fn, bi, t in ups:
+        if fn.path != TICK_INNER:
+            continue
+        wr = []
+        for wbi, wt in fn.calls(lambda t: callee(t).endswith("Clone>::clone_from")):
+            dst = fn.expr_of_operand(wt["args"][0])
+            db, dn = field_chain(dst)
+            if dn[-1:] == ["pattern"] and db[0] != "arg":
+                wr.append(wbi)
+        for wbi, wsi, ws in field_assigns(fn, "pattern", "worker::Worker<"):
+            wr.append(wbi)
+        early = [w for w in wr if bi in fn.reach_from(w) and w != bi]
+        if early:
+            ctx.violation("%s|update-order|pattern" % fn.path, site(fn, early[0]),
+                          "the worker's pattern is overwritten with the matcher's current pattern before Snapshot::update copies the finished run: the snapshot gets the new pattern together with the old run's matches and scores")
+        else:
+            ctx.ok(site(fn, bi), "Snapshot::update runs before the worker's pattern is replaced (%d write site(s) after it)" % len(wr))
     # was_canceled: set whenever the sort reports cancellation, cleared only at the start of run
     run = get_fn(ctx.facts, "nucleo", RUN)
     sets = [(bi, si, s) for bi, si, s in field_assigns(run, "was_canceled") if si != "term" and "use" in s["rv"]]
